@@ -245,7 +245,7 @@ def configs(tier):
     if tier == "quick":
         insts = insts[:6]
     for k, i in enumerate(insts):
-        for pad in ((0,) if tier == "quick" else ((0, 1, 2) if k < 6 else (0, 1))):
+        for pad in ((0,) if tier == "quick" else ((0, 1, 2) if k < 3 else ((0, 1) if k < 6 else (0,)))):
             ring.append(dict(inst=i, pad=pad))
     if tier == "quick":
         ring.append(dict(inst=insts[0], pad=1))
